@@ -1369,6 +1369,11 @@ func (s *vfSM) doClear(live bool, vs *[]*vfViol) {
 	if rc := s.c.RemainingCost(); rc != s.c.MaxCost() {
 		s.add(vs, vfV("C15", "capacity-not-reset", "RemainingCost()=%d != MaxCost()=%d after Clear", rc, s.c.MaxCost()))
 	}
+	if pk := s.policyKeys(); len(pk) != 0 {
+		// "its capacity ... reset": the accounting still names keys (possibly at cost 0), so a later Set of one of them
+		// is not treated as a fresh cache would treat it
+		s.add(vs, vfV("C15", "accounting-not-reset", "the capacity accounting still names %d keys after Clear: %v", len(pk), vfKeys(pk)))
+	}
 	if m := s.c.Metrics; m != nil && s.cfg.Metrics {
 		tot := m.Hits() + m.Misses() + m.KeysAdded() + m.KeysUpdated() + m.KeysEvicted() + m.CostAdded() + m.CostEvicted() + m.SetsDropped() + m.SetsRejected()
 		if tot != 0 {
